@@ -47,28 +47,6 @@ typedef long double LD;
 namespace {
 
 const double EPS = 0x1p-52;
-const char *KNOWN_F8 = "amr_block_wall_lookup";
-// a position within a few ulp below a wall whose floating point index rounds
-// up to the next integer (child index 2 / block index n / cell index n)
-const char *KNOWN_AMR_UP = "amr_index_rounds_up";
-const char *KNOWN_CART_UP = "cart_index_rounds_up";
-// AMRDensityGrid::interact: a photon that crosses a periodic boundary into a
-// neighbour that is more refined than the cell it leaves is put into the wrong
-// child (the child is selected with the un-wrapped wall position)
-const char *KNOWN_AMR_WRAP = "amr_periodic_refined_neighbour";
-// AMRDensityGrid::interact: a photon absorbed in the last cell before an open
-// box face (heading for that face) is reported as escaped (end()), because the
-// cell pointer has already been advanced to the (null) neighbour
-const char *KNOWN_AMR_LAST = "amr_absorbed_in_last_cell";
-// AMRDensityGrid::interact: in a periodic dimension that consists of a single
-// unrefined block the neighbour across the periodic face is the cell itself;
-// no periodic correction is applied and the loop never advances (endless loop)
-const char *KNOWN_AMR_SELF = "amr_periodic_single_block";
-// PointLocations::get_closest_neighbour: the bucket index (x-anchor)/side of a
-// query position just below the upper boundary rounds up to the number of
-// buckets: out-of-bounds read of the bucket grid
-const char *KNOWN_PL_UP = "pointloc_index_rounds_up";
-
 // ------------------------------------------------------------------ utilities
 uint64_t mix64(uint64_t x) {
   x += 0x9e3779b97f4a7c15ull;
@@ -319,6 +297,8 @@ struct RayExpect {
 // reached on the given segments)
 template <typename CELLS> LD l_of_tau(const std::vector<Seg> &segs, const CELLS &cells, LD tau) {
   LD acc = 0.L;
+  if (tau <= 0.L)
+    return 0.L;
   for (const Seg &s : segs) {
     const LD k = cells[s.cell].kappa;
     const LD dt = s.t1 - s.t0;
@@ -621,57 +601,6 @@ struct MTree {
   }
 };
 
-// the block index the way AMRGrid computes it (the expression under test for
-// the known finding F8)
-uint32_t fp_block_index(const Geo &g, const int nb[3], int i, double x) {
-  return (uint32_t)((uint_fast32_t)nb[i] * (x - g.a[i]) / g.L[i]);
-}
-
-// Matcher for the finding "index overflow": replays the descent of
-// AMRGrid::get_cell / AMRGridCell::get_cell with the code's own floating point
-// expressions (through the model tree) and reports whether, for this position
-// inside the half-open box, a block index comes out as n_block or a child
-// index comes out as 2 (the code then reads _top_level / _children out of
-// bounds: wrong cell, "Cell does not exist" abort or crash).
-bool amr_fp_index_overflow(const MTree &M, const Geo &g, const double x[3]) {
-  double sides[3], anchor[3];
-  uint_fast32_t fb[3];
-  for (int i = 0; i < 3; ++i) {
-    sides[i] = g.L[i] / (uint_fast32_t)M.nb[i];
-    fb[i] = (uint_fast32_t)M.nb[i] * (x[i] - g.a[i]) / g.L[i];
-    if (fb[i] >= (uint_fast32_t)M.nb[i])
-      return true;
-    anchor[i] = g.a[i] + fb[i] * sides[i];
-  }
-  int node = M.root((int)fb[0], (int)fb[1], (int)fb[2]);
-  while (!M.nodes[node].leaf()) {
-    uint_fast8_t ix[3];
-    for (int i = 0; i < 3; ++i) {
-      ix[i] = 2 * (x[i] - anchor[i]) / sides[i];
-      if (ix[i] >= 2)
-        return true;
-    }
-    for (int i = 0; i < 3; ++i) {
-      sides[i] *= 0.5;
-      anchor[i] += ix[i] * sides[i];
-    }
-    node = M.nodes[node].child[4 * ix[0] + 2 * ix[1] + ix[2]];
-  }
-  return false;
-}
-
-// the Cartesian cell index the way CartesianDensityGrid computes it
-bool cart_fp_index_rounds_up(const Geo &g, const int64_t n[3], const double x[3]) {
-  for (int i = 0; i < 3; ++i) {
-    const double cs = g.L[i] / n[i];
-    const double inv = 1. / cs;
-    const int_fast32_t ix = (x[i] - g.a[i]) * inv;
-    if (ix >= n[i] && x[i] < g.top(i) && g.top(i) - x[i] <= 4. * EPS * (g.L[i] + std::abs(x[i])))
-      return true;
-  }
-  return false;
-}
-
 // ---------------------------------------------------------------------------
 //                       sub-check amr_tree (AMRGrid<size_t>)
 // ---------------------------------------------------------------------------
@@ -713,17 +642,8 @@ VCase gen_amr_tree() {
     }
   }
   c.D("qsel", qsel).D("qfrac", qfrac).I("qmode", qmode);
-  // queries that fall into an OPEN known-finding class are only executed in
-  // this fraction of the cases (elsewhere they are skipped, so that the search
-  // continues behind the known classes)
-  c.I("probe_known", vr::coin(0.15));
   return c;
 }
-
-struct AmrTreeFail {
-  std::string msg;
-  std::string known; // matcher name or empty
-};
 
 VResult o_amr_tree(const VCase &c) {
   VResult r;
@@ -750,10 +670,10 @@ VResult o_amr_tree(const VCase &c) {
   const double scale = g.scale();
   int maxlevel_seen = level0;
 
-  std::vector<AmrTreeFail> fails;
-  auto addfail = [&](const std::string &m, const std::string &known) {
+  std::vector<std::string> fails;
+  auto addfail = [&](const std::string &m, const std::string &) {
     if (fails.size() < 50)
-      fails.push_back(AmrTreeFail{m, known});
+      fails.push_back(m);
   };
 
   auto check_structure = [&](const char *when) -> bool {
@@ -827,7 +747,7 @@ VResult o_amr_tree(const VCase &c) {
   for (size_t k = 0; k < ops.size(); ++k) {
     if (k == half && k > 0) {
       if (!check_structure("mid-history")) {
-        r.fail(fails[0].msg);
+        r.fail(fails[0]);
         return r;
       }
     }
@@ -847,7 +767,7 @@ VResult o_amr_tree(const VCase &c) {
     }
   }
   if (!check_structure("end-of-history")) {
-    r.fail(fails[0].msg);
+    r.fail(fails[0]);
     return r;
   }
   const std::vector<int> lv = M.leaves();
@@ -918,9 +838,7 @@ VResult o_amr_tree(const VCase &c) {
 
   // ------------------------------------------------------------ position lookup
   const int nq = (int)c.dv("qsel").size();
-  int nwall = 0, nblockwall = 0, ntie = 0, nskipped = 0;
-  const bool probe_known = c.i("probe_known") != 0;
-  const auto open_known = vr::split_env("VERIF_KNOWN");
+  int nwall = 0, nblockwall = 0, ntie = 0;
   std::map<uint64_t, size_t> keyleaf;
   for (size_t j = 0; j < lv.size(); ++j)
     keyleaf[M.key(lv[j])] = j;
@@ -964,26 +882,10 @@ VResult o_amr_tree(const VCase &c) {
     }
     const bool anywall = onwall[0] || onwall[1] || onwall[2];
     nwall += anywall;
-    // known-finding matcher (F8): the position sits exactly on an interior
-    // top-level block wall and the floating point block index of AMRGrid
-    // disagrees with the block the wall belongs to; nothing else is unusual
-    bool f8 = false, other_dims_ok = true;
-    for (int i = 0; i < 3; ++i) {
-      const uint32_t fb = fp_block_index(g, nb, i, x[i]);
-      if (onwall[i] && n.ic[i] == 0 && n.b[i] > 0) {
+    for (int i = 0; i < 3; ++i)
+      if (onwall[i] && n.ic[i] == 0 && n.b[i] > 0)
         ++nblockwall;
-        if (fb != (uint32_t)n.b[i])
-          f8 = true;
-      } else if (fb != (uint32_t)n.b[i])
-        other_dims_ok = false;
-    }
-    const std::string known = amr_fp_index_overflow(M, g, x)
-                                  ? KNOWN_AMR_UP
-                                  : ((f8 && other_dims_ok) ? KNOWN_F8 : "");
-    if (!known.empty() && !probe_known && open_known.count(known)) {
-      ++nskipped;
-      continue;
-    }
+    const std::string known; // (no open finding)
     const Vec pos(x[0], x[1], x[2]);
     // classification of an answer that is not the expected leaf:
     //  0 = wrong, 1 = tie of the geometry (position on an in-block wall is given
@@ -1002,8 +904,8 @@ VResult o_amr_tree(const VCase &c) {
         const double tolw = 8. * EPS * (scale + g.L[i]);
         if (x[i] >= a2 - tolw && x[i] <= t2 + tolw) {
           // ... unless the position sits on a top-level block wall and was
-          // given to the block below: there the lookup uses another formula
-          // (known finding F8)
+          // given to the block below (the block lookup must agree with the
+          // block anchors: regression F8)
           if (onwall[i] && n.ic[i] == 0 && n.b[i] > 0 && x[i] >= t2 - tolw)
             return 0;
           continue;
@@ -1013,7 +915,6 @@ VResult o_amr_tree(const VCase &c) {
       return 1;
     };
     try {
-      c16::announce(known);
       const amrkey_t kk = grid.get_key(pos);
       uint64_t accepted = mk;
       if (kk != mk) {
@@ -1038,9 +939,7 @@ VResult o_amr_tree(const VCase &c) {
                 known);
         continue;
       }
-      c16::announce("");
     } catch (const VerifAbort &e) {
-      c16::announce("");
       addfail(fmt("position lookup aborts for (%.17g, %.17g, %.17g) inside leaf %llx "
                   "(level %d): %s",
                   x[0], x[1], x[2], (unsigned long long)mk, n.level, e.msg.c_str()),
@@ -1049,29 +948,12 @@ VResult o_amr_tree(const VCase &c) {
   }
   if (ntie)
     r.label("wall-position-in-lower-sibling(tie)");
-  if (nskipped)
-    r.label("query-in-open-known-class-skipped");
   if (nwall)
     r.label("query-on-leaf-wall");
   if (nblockwall)
     r.label("query-on-block-wall");
-  // an unknown failure has priority over a known one
-  for (auto &f : fails)
-    if (f.known.empty()) {
-      r.fail(f.msg);
-      return r;
-    }
-  if (!fails.empty()) {
-    // if several known classes are hit, report one that is not (yet) excluded
-    size_t pick = 0;
-    for (size_t k = 0; k < fails.size(); ++k)
-      if (!open_known.count(fails[k].known)) {
-        pick = k;
-        break;
-      }
-    r.fail(fails[pick].msg);
-    r.known = fails[pick].known;
-  }
+  if (!fails.empty())
+    r.fail(fails[0]);
   return r;
 }
 
@@ -1214,9 +1096,7 @@ VResult o_cart_locate(const VCase &c) {
     }
     const bool anywall = onwall[0] || onwall[1] || onwall[2];
     nwallq += anywall;
-    c16::announce(cart_fp_index_rounds_up(g, n, x) ? KNOWN_CART_UP : "");
     const size_t got = grid.get_cell_index(Vec(x[0], x[1], x[2]));
-    c16::announce("");
     if (got == li)
       continue;
     // which cell did we get?  On an exact wall the lower neighbour also contains
@@ -1247,8 +1127,6 @@ VResult o_cart_locate(const VCase &c) {
       ++nlower;
       continue;
     }
-    if (cart_fp_index_rounds_up(g, n, x))
-      r.known = KNOWN_CART_UP;
     r.fail(fmt("get_cell_index(%.17g, %.17g, %.17g) = %zu, but the position lies in cell %zu "
                "= (%lld,%lld,%lld) with anchor %.17g %.17g %.17g, sides %.17g %.17g %.17g",
                x[0], x[1], x[2], got, li, (long long)idx[0], (long long)idx[1],
@@ -1544,11 +1422,13 @@ std::string compare_ray(const std::vector<BCell> &cells, const Geo &g, const Ray
   // conditioning of "where is tau reached": tau(l) may be flat (transparent
   // cells) or shallow around the target
   LD kall = 0.L;
-  for (const Seg &sg : e.segs)
-    kall = std::max(kall, (LD)cells[sg.cell].kappa);
+  for (const BCell &bc : cells) // (also cells the ray only touches)
+    kall = std::max(kall, (LD)bc.kappa);
   const LD dtau = (LD)tol * std::max(kall, (LD)1e-300) + 64. * EPS * (LD)ray.tau * (e.nseg + 8);
   const LD l_lo = std::min(l_of_tau(e.segs, cells, (LD)ray.tau - dtau), e.l_exit);
   const LD l_hi = std::min(l_of_tau(e.segs, cells, (LD)ray.tau + dtau), e.l_exit);
+  if (getenv("C16_DEBUG"))
+    fprintf(stderr, "  compare: tol %g kall %Lg dtau %Lg l_lo %.12Lg l_hi %.12Lg\n", tol, kall, dtau, l_lo, l_hi);
   const bool abs_lo = l_lo < e.l_exit - tol, abs_hi = l_hi < e.l_exit - tol;
   if (abs_lo != abs_hi || (!abs_lo && std::abs(l_lo - e.l_exit) <= tol && l_lo < e.l_exit)) {
     r.label("ambiguous-absorbed-at-exit");
@@ -1612,8 +1492,11 @@ VCase gen_cart_ray() {
   const double sHe = vr::coin(0.5) ? 0. : 0.37;
   c.D("sHe", sHe);
   const Geo g = geo_of(c);
-  const bool allper = g.per[0] && g.per[1] && g.per[2];
-  c.I("transparent", allper ? 0 : vr::coin(0.7));
+  // transparent cells only in fully open boxes: in a periodic direction a ray
+  // that runs inside a wall plane could otherwise be caught for ever in a
+  // transparent column of the adjacent cells (legitimately endless)
+  const bool anyper_gen = g.per[0] || g.per[1] || g.per[2];
+  c.I("transparent", anyper_gen ? 0 : vr::coin(0.7));
   const std::vector<BCell> cells =
       cart_cells(g, n, (uint64_t)c.i("kseed"), c.i("transparent") != 0, sHe, nullptr);
   gen_rays(c, g, cells, 2, sHe);
@@ -1658,16 +1541,11 @@ VResult o_cart_ray(const VCase &c) {
       set_opacity(DensityGrid::iterator(i, grid), op[i]);
     Photon ph = make_photon(ray);
     const Photon ph0 = ph;
-    const bool start_rounds_up = cart_fp_index_rounds_up(g, n, ray.p);
     DensityGrid::iterator it = grid.end();
     try {
-      c16::announce(start_rounds_up ? KNOWN_CART_UP : "");
       it = grid.interact(ph, ray.tau);
-      c16::announce("");
     } catch (const VerifAbort &e) {
       r.fail(fmt("ray %d: interact aborts for a start position inside the box: %s", k, e.msg.c_str()));
-      if (start_rounds_up)
-        r.known = KNOWN_CART_UP;
       return r;
     }
     const bool absorbed = it != grid.end();
@@ -1693,12 +1571,8 @@ VResult o_cart_ray(const VCase &c) {
                                         absorbed ? (int)it.get_index() : -1, xend, r, 0., true);
     if (!msg.empty()) {
       r.fail(fmt("ray %d: ", k) + msg);
-      if (start_rounds_up)
-        r.known = KNOWN_CART_UP;
       return r;
     }
-    if (start_rounds_up)
-      continue;
     // integrate_optical_depth: total optical depth to the box boundary
     if (!anyper) {
       Ray full = ray;
@@ -1830,13 +1704,13 @@ VCase gen_amr_ray() {
   const double sHe = vr::coin(0.5) ? 0. : 0.37;
   c.D("sHe", sHe);
   const Geo g = geo_of(c);
-  const bool allper = g.per[0] && g.per[1] && g.per[2];
-  c.I("transparent", allper ? 0 : vr::coin(0.7));
+  // transparent cells only in fully open boxes: in a periodic direction a ray
+  // that runs inside a wall plane could otherwise be caught for ever in a
+  // transparent column of the adjacent cells (legitimately endless)
+  const bool anyper_gen = g.per[0] || g.per[1] || g.per[2];
+  c.I("transparent", anyper_gen ? 0 : vr::coin(0.7));
   const AmrSetup s = amr_setup(c);
   gen_rays(c, g, s.cells, 2, sHe);
-  // rays of an OPEN known-finding class are only traced in this fraction of
-  // the cases (some of those classes never terminate)
-  c.I("probe_known", vr::coin(0.04));
   return c;
 }
 
@@ -1964,8 +1838,6 @@ VResult o_amr_ray(const VCase &c) {
 
   r.label(fmt("depth-%d", std::min(s.maxlevel, 6)));
   const bool anyper = g.per[0] || g.per[1] || g.per[2];
-  const bool probe_known = c.i("probe_known") != 0;
-  const auto open_known = vr::split_env("VERIF_KNOWN");
   const int nray = (int)c.dv("ray_tau").size();
   for (int k = 0; k < nray; ++k) {
     const Ray ray = ray_of(c, k, sHe);
@@ -1974,162 +1846,19 @@ VResult o_amr_ray(const VCase &c) {
       r.label("skipped-unbounded-transparent-ray");
       continue;
     }
-    // known-finding classes of the start position lookup
-    std::string known;
-    if (amr_fp_index_overflow(s.M, g, ray.p))
-      known = KNOWN_AMR_UP;
-    else {
-      for (int i = 0; i < 3; ++i) {
-        const LD bs = (LD)g.L[i] / (LD)s.nb[i];
-        const LD q = ((LD)ray.p[i] - (LD)g.a[i]) / bs;
-        const int64_t bt = (int64_t)std::floor((double)(q + 1e-12L));
-        // on a block wall (within rounding) and the floating point index is one too low
-        if (std::abs(q - std::round(q)) < 1e-12L && bt >= 1 &&
-            fp_block_index(g, s.nb, i, ray.p[i]) + 1 == (uint32_t)bt)
-          known = KNOWN_F8;
-      }
-    }
-    // matcher of the periodic-wrap finding: on the oracle path the ray crosses
-    // a periodic face into a leaf of a higher level than the one it leaves
-    if (known.empty() && anyper) {
-      const LD tw = 1e-9L * (LD)g.diag();
-      // crossing times of periodic faces on [0, l_end]: ends of segments and t = 0
-      std::vector<LD> tws;
-      tws.push_back(0.L);
-      // (window: up to where the optical depth is reached for certain)
-      const LD lwin = std::min(l_of_tau(e.segs, s.cells, (LD)ray.tau * (1.L + 1e-9L)), e.l_exit);
-      // (a ray inside a wall plane may run through either adjacent cell, with
-      // other opacities than the oracle assumes: no window then)
-      const bool tie_ray = ray_in_wall_plane(s.cells, ray, 1e-9L * (LD)g.diag());
-      for (const Seg &A : e.segs)
-        if (tie_ray || A.t1 <= lwin + 1e-6L * (LD)g.diag())
-          tws.push_back(A.t1);
-      for (const LD t : tws) {
-        bool onface = false;
-        for (int i = 0; i < 3; ++i) {
-          if (!g.per[i] || ray.d[i] == 0.)
-            continue;
-          const LD q = ((LD)ray.p[i] + t * (LD)ray.d[i] - (LD)g.a[i]) / (LD)g.L[i];
-          if (std::abs(q - std::round(q)) < 1e-9L)
-            onface = true;
-        }
-        if (!onface)
-          continue;
-        // levels of all leaves that touch the crossing point (on either side of
-        // every periodic face; several faces may be crossed at the same time
-        // and a ray inside a wall plane may be in either adjacent cell)
-        {
-          int lmin = 99, lmax = -1;
-          for (size_t j = 0; j < N; ++j) {
-            bool in = true;
-            for (int d2 = 0; d2 < 3 && in; ++d2) {
-              LD X = (LD)ray.p[d2] + t * (LD)ray.d[d2];
-              if (g.per[d2])
-                X -= std::floor((X - (LD)g.a[d2]) / (LD)g.L[d2]) * (LD)g.L[d2];
-              const LD w = tw + 1e-9L * (LD)g.L[d2];
-              bool ind = X >= s.cells[j].lo[d2] - w && X <= s.cells[j].hi[d2] + w;
-              if (g.per[d2]) {
-                ind |= X + (LD)g.L[d2] >= s.cells[j].lo[d2] - w && X + (LD)g.L[d2] <= s.cells[j].hi[d2] + w;
-                ind |= X - (LD)g.L[d2] >= s.cells[j].lo[d2] - w && X - (LD)g.L[d2] <= s.cells[j].hi[d2] + w;
-              }
-              in = ind;
-            }
-            if (in) {
-              lmin = std::min(lmin, s.M.nodes[s.lv[j]].level);
-              lmax = std::max(lmax, s.M.nodes[s.lv[j]].level);
-            }
-          }
-          if (lmax > lmin && known.empty())
-            known = KNOWN_AMR_WRAP;
-        }
-        // (any unrefined block touching the crossing point: several faces may be
-        // crossed at the same time, and a ray inside a wall plane may be in
-        // either of the adjacent cells)
-        for (int i = 0; i < 3; ++i) {
-          if (!g.per[i] || ray.d[i] == 0. || s.nb[i] != 1)
-            continue;
-          const LD q = ((LD)ray.p[i] + t * (LD)ray.d[i] - (LD)g.a[i]) / (LD)g.L[i];
-          if (std::abs(q - std::round(q)) >= 1e-9L)
-            continue;
-          LD X[3];
-          for (int j = 0; j < 3; ++j) {
-            X[j] = (LD)ray.p[j] + t * (LD)ray.d[j];
-            if (g.per[j])
-              X[j] -= std::floor((X[j] - (LD)g.a[j]) / (LD)g.L[j]) * (LD)g.L[j];
-          }
-          for (size_t j = 0; j < N; ++j) {
-            if (s.M.nodes[s.lv[j]].level != 0)
-              continue;
-            bool in = true;
-            for (int d2 = 0; d2 < 3; ++d2) {
-              if (d2 == i)
-                continue; // spans the whole dimension
-              const LD w = tw + 1e-9L * (LD)g.L[d2];
-              bool ind = X[d2] >= s.cells[j].lo[d2] - w && X[d2] <= s.cells[j].hi[d2] + w;
-              // the other side of a periodic face
-              if (g.per[d2] && (X[d2] - (LD)g.a[d2] <= w) && s.cells[j].hi[d2] >= (LD)g.a[d2] + (LD)g.L[d2] - w)
-                ind = true;
-              in &= ind;
-            }
-            if (in)
-              known = KNOWN_AMR_SELF;
-          }
-        }
-      }
-    }
-    if (getenv("C16_DEBUG"))
-      fprintf(stderr, "ray %d: matcher says '%s' (l_abs %.12Lg l_exit %.12Lg nseg %zu)\n", k, known.c_str(), e.l_abs, e.l_exit, e.segs.size());
-    if (!known.empty() && !probe_known && open_known.count(known)) {
-      r.label("ray-in-open-known-class-skipped");
-      continue;
-    }
     for (size_t i = 0; i < N; ++i)
       set_opacity(DensityGrid::iterator(i, grid), s.op[leaf_of_index[i]]);
     Photon ph = make_photon(ray);
     DensityGrid::iterator it = grid.end();
     try {
-      c16::announce(known);
       it = grid.interact(ph, ray.tau);
-      c16::announce("");
     } catch (const VerifAbort &e2) {
-      c16::announce("");
       r.fail(fmt("ray %d: interact aborts for a start position inside the box: %s", k, e2.msg.c_str()));
-      r.known = known;
       return r;
     }
     const bool absorbed = it != grid.end();
-    if (!absorbed && known.empty() && e.l_abs < e.l_exit) {
-      // matcher: the oracle absorbs the photon in the cell that touches the
-      // open face through which the ray leaves the box
-      const LD tw = 1e-9L * (LD)g.diag();
-      for (const Seg &sg : e.segs)
-        if (sg.t0 - tw <= e.l_abs && e.l_abs <= sg.t1 + tw && sg.t1 >= e.l_exit - tw)
-          known = KNOWN_AMR_LAST;
-    }
-    if (!absorbed && known.empty()) {
-      // signature of the same finding for rays the oracle cannot place (ties):
-      // reported as escaped although the photon stopped strictly inside the box
-      // after using up exactly its optical depth
-      LD stau = 0.L;
-      for (size_t i = 0; i < N; ++i)
-        stau += (LD)s.cells[leaf_of_index[i]].kappa *
-                (LD)DensityGrid::iterator(i, grid).get_mean_intensity(ION_H_n) / SIGMA_H;
-      const Vec xe0 = ph.get_position();
-      bool onface = false;
-      for (int i = 0; i < 3; ++i)
-        if (!g.per[i] && (std::abs(xe0[i] - g.a[i]) <= 1e-9 * g.L[i] ||
-                          std::abs(xe0[i] - (g.a[i] + g.L[i])) <= 1e-9 * g.L[i]))
-          onface = true;
-      LD kmx = 0.L;
-      for (const BCell &bc : s.cells)
-        kmx = std::max(kmx, (LD)bc.kappa);
-      const LD tolp = 64. * EPS * (g.scale() + (double)std::min(e.l_end, (LD)1e300)) *
-                      (double)(e.nseg + 8) / dmin_of(ray);
-      if (!onface && std::abs(stau - (LD)ray.tau) <= 1e-9L * (LD)ray.tau + tolp * kmx)
-        known = KNOWN_AMR_LAST;
-    }
     if (getenv("C16_DEBUG")) {
-      fprintf(stderr, "ray %d: l_abs %.12Lg l_exit %.12Lg absorbed %d known '%s'\n", k, e.l_abs, e.l_exit, (int)absorbed, known.c_str());
+      fprintf(stderr, "ray %d: l_abs %.12Lg l_exit %.12Lg absorbed %d\n", k, e.l_abs, e.l_exit, (int)absorbed);
       for (size_t i = 0; i < N; ++i) {
         const double dd = DensityGrid::iterator(i, grid).get_mean_intensity(ION_H_n);
         const BCell &bc = s.cells[leaf_of_index[i]];
@@ -2181,7 +1910,6 @@ VResult o_amr_ray(const VCase &c) {
     if (absorbed) {
       if (it.get_index() >= N) {
         r.fail(fmt("ray %d: returned cell index %zu out of range", k, (size_t)it.get_index()));
-        r.known = known;
         return r;
       }
       ret = leaf_of_index[it.get_index()];
@@ -2189,7 +1917,6 @@ VResult o_amr_ray(const VCase &c) {
     const std::string msg = compare_ray(s.cells, g, ray, e, dep, absorbed, ret, xend, r, 0., true);
     if (!msg.empty()) {
       r.fail(fmt("ray %d: ", k) + msg);
-      r.known = known;
       return r;
     }
   }
@@ -2430,7 +2157,6 @@ VCase gen_pointloc() {
     }
   }
   c.D("queries", Q);
-  c.I("probe_known", vr::coin(0.1));
   return c;
 }
 
@@ -2455,27 +2181,6 @@ VResult o_pointloc(const VCase &c) {
     r.label("several-buckets");
     r.nontrivial = true;
   }
-  // geometry of the bucket grid as the constructor defines it
-  double ganchor[3], gsides[3];
-  for (int i = 0; i < 3; ++i) {
-    if (withbox) {
-      ganchor[i] = g.a[i];
-      gsides[i] = g.L[i] / (uint_fast32_t)ncell1d;
-    } else {
-      double mn = pts[0][i], mx = pts[0][i];
-      for (auto &p : pts) {
-        mn = std::min(mn, p[i]);
-        mx = std::max(mx, p[i]);
-      }
-      mx -= mn;
-      mn -= 0.01 * mx;
-      mx *= 1.02;
-      ganchor[i] = mn;
-      gsides[i] = mx / (uint_fast32_t)ncell1d;
-    }
-  }
-  const bool probe_known = c.i("probe_known") != 0;
-  const auto open_known = vr::split_env("VERIF_KNOWN");
   for (size_t q = 0; q < nq; ++q) {
     const double x[3] = {c.d("queries", 3 * q), c.d("queries", 3 * q + 1), c.d("queries", 3 * q + 2)};
     std::vector<LD> d(N);
@@ -2489,40 +2194,22 @@ VResult o_pointloc(const VCase &c) {
     for (size_t j = 0; j < N; ++j)
       if (j != best)
         second = std::min(second, d[j]);
-    // matcher: the bucket index as the code computes it
-    std::string known;
-    for (int i = 0; i < 3; ++i) {
-      const uint_fast32_t ax = (x[i] - ganchor[i]) / gsides[i];
-      // (the query is inside the half-open box the structure was built for)
-      if (ax >= ncell1d)
-        known = KNOWN_PL_UP;
-    }
-    if (!known.empty() && !probe_known && open_known.count(known)) {
-      r.label("query-in-open-known-class-skipped");
-      continue;
-    }
-    c16::announce(known);
     size_t got = N;
     try {
       got = pl->get_closest_neighbour(Vec(x[0], x[1], x[2]));
     } catch (const std::exception &ex) {
-      c16::announce("");
       r.fail(fmt("get_closest_neighbour(%.17g, %.17g, %.17g) throws %s (%zu points, %zu^3 buckets)",
                  x[0], x[1], x[2], ex.what(), N, ncell1d));
-      r.known = known;
       return r;
     }
-    c16::announce("");
     if (got >= N) {
       r.fail(fmt("get_closest_neighbour returns index %zu >= %zu", got, N));
-      r.known = known;
       return r;
     }
     if (second - d[best] <= amb ? d[got] - d[best] > amb : got != best) {
       r.fail(fmt("get_closest_neighbour(%.17g, %.17g, %.17g) = %zu at distance %.17Lg, brute "
                  "force says %zu at distance %.17Lg (%zu points, %zu^3 buckets)",
                  x[0], x[1], x[2], got, d[got], best, d[best], N, ncell1d));
-      r.known = known;
       return r;
     }
   }
